@@ -214,6 +214,13 @@ def runLine (d : DSt) (line : String) : DSt × List String :=
         if ids.length ≠ n.toNat then (d, ["bad-op"]) else
         let a' := echoAll d.arb (ids.map Int.toNat)
         ({ d with arb := a' }, stateBlock a')
+      -- spec.paused of job id becomes v (ev = 0: set at creation, no event; ev = 1: a spec Update, whose Update event reaches the
+      -- handler with the job's phase unchanged).  The arbitrator never reads spec.paused, so the model has no such field: a
+      -- paused job keeps its phase, its annotation, its mark and its place in every count
+      | "pause", [id, _v, ev] =>
+        if ev = 0 then (d, []) else
+        let a' := echoAll d.arb [id.toNat]
+        ({ d with arb := a' }, stateBlock a')
       | "deljob", [id] =>
         let a' := deleteJob d.arb id.toNat
         ({ d with arb := a' }, stateBlock a')
